@@ -15,10 +15,12 @@ def build(P):
     P.verify(D.ET + "asl_service_rpcmessage", D.rpcmessage_contract(), tags=("C06",), timeout=30)
     P.verify(D.ET + "asl_service_states_startExecution", D.start_execution_launch_contract(), tags=("C06",), timeout=30)
     P.native("failing-branches", "natives.c06:failures", kind="bounded", clause="C06:", timeout=900,
-             bound="8 scenario machines (uncaught failure with a task sibling; Catch with ResultPath on the Parallel; Fail state "
+             bound="13 scenario machines (uncaught failure with a task sibling; Catch with ResultPath on the Parallel; Fail state "
                    "ending a branch; error caught inside a branch with a fallback task, alone and with a failing sibling; Map with "
-                   "Retry then Catch; Wait sibling; sibling in Retry back-off) x every schedule up to 4 choice points (6 at thorough) "
-                   "in three exploration modes + seeded random schedules; real StateEngine + real TaskDispatcher, fake broker")
+                   "Retry then Catch; Wait sibling; sibling in Retry back-off; nested Parallel whose outer / inner state fails; Map with "
+                   "MaxConcurrency failing in an early batch; long-form rpcmessage sibling; caught failure followed by a sibling's own "
+                   "error) x every schedule up to 4 choice points (6 at thorough) in three exploration modes, deep interleavings after a "
+                   "FIFO warm-up for the nested ones, + seeded random schedules; real StateEngine + real TaskDispatcher, fake broker")
     P.explanation = ("Deductive (handler level): a Task whose branch was terminated while it waited for its start / retry delay is "
                      "not started (termination re-checked in asl_state_Task_delegate), a terminated task's reply reaches handle_error as "
                      "Task.Terminated, a cancelled Wait passes the cancellation error on. Everything quantified over interleavings of "
